@@ -412,7 +412,9 @@ DoResume(st, co, args, multi, wrap, ln) ==
 
 DoYield(st, vs, multi, ln) ==
     IF st.cur = 0 THEN Fault(st, ln)
-    ELSE IF NearestIdx(st.kont, IsPMark) # 0 THEN Unmod(st, "yield across pcall")
+    \* Lua 5.1: a yield cannot cross a protected call made by the host function pcall/xpcall (nor any other host
+    \* call): "attempt to yield across metamethod/C-call boundary", raised at the yield call
+    ELSE IF NearestIdx(st.kont, IsPMark) # 0 THEN Fault(st, ln)
     ELSE LET r == st.heap[st.cur].resumer
              s1 == SaveCur(st, [w |-> "yieldwait", m |-> multi], "suspended")
          IN SwitchTo(s1, r, vs, FALSE)
